@@ -10,6 +10,7 @@
 #include <amgcl/adapter/crs_tuple.hpp>
 #include <amgcl/adapter/zero_copy.hpp>
 #include <amgcl/make_solver.hpp>
+#include <amgcl/relaxation/as_preconditioner.hpp>
 #include <amgcl/amg.hpp>
 #include <amgcl/coarsening/runtime.hpp>
 #include <amgcl/relaxation/runtime.hpp>
@@ -369,6 +370,24 @@ int main(int argc, char **argv) {
                     if (leaked != 0) { o << "LEAK zero_copy view passed by reference (copy, assign, amg, rebuild, make_solver): " << leaked << " block(s) still live after destruction"; return; }
                 }
                 if (ptr != m.ptr || col != m.col || std::memcmp(val.data(), m.val.data(), val.size() * 8) != 0) { o << "USER-MATRIX-MODIFIED after the by-reference operations on a zero_copy view"; return; }
+                // user arrays whose rows are NOT sorted, adopted without copying (shared_ptr path) by amg and by a smoother used as
+                // preconditioner: whatever order the library needs it has to establish on a copy; the user's arrays stay as they are
+                {
+                    std::vector<ptrdiff_t> rptr = m.ptr, rcol = m.col; std::vector<double> rval = m.val;
+                    for (int i = 0; i < m.n; ++i) { std::reverse(rcol.begin() + rptr[i], rcol.begin() + rptr[i + 1]); std::reverse(rval.begin() + rptr[i], rval.begin() + rptr[i + 1]); }
+                    const std::vector<ptrdiff_t> kcol = rcol; const std::vector<double> kval = rval;
+                    {
+                        auto V = adapter::zero_copy((size_t)m.n, rptr.data(), rcol.data(), rval.data());
+                        backend::numa_vector<double> f(m.n), x(m.n); for (int i = 0; i < m.n; ++i) f[i] = 1;
+                        try { boost::property_tree::ptree p; p.put("coarse_enough", 1); p.put("relax.type", "spai0");
+                              amg<B, runtime::coarsening::wrapper, runtime::relaxation::wrapper> a(V, p); a.apply(f, x); } catch (const std::exception &) {}
+                        try { boost::property_tree::ptree p; p.put("type", "spai0");
+                              relaxation::as_preconditioner<B, runtime::relaxation::wrapper> r(V, p); r.apply(f, x); } catch (const std::exception &) {}
+                        try { boost::property_tree::ptree p; p.put("type", "damped_jacobi");
+                              relaxation::as_preconditioner<B, runtime::relaxation::wrapper> r(V, p); r.apply(f, x); } catch (const std::exception &) {}
+                    }
+                    if (rptr != m.ptr || rcol != kcol || std::memcmp(rval.data(), kval.data(), rval.size() * 8) != 0) { o << "USER-MATRIX-MODIFIED: unsorted user arrays adopted through a zero_copy view were reordered or rewritten"; return; }
+                }
                 // a view that is re-used as the target of an assignment: it must let go of the user's arrays (never free or
                 // overwrite them) and own its new copy
                 {
